@@ -254,6 +254,11 @@ func (s *Solver) Check(text string, vars []*Term) (Result, map[string]uint64, er
 	}
 	sb.WriteString("))\n")
 	lines, err = s.roundTrip(sb.String())
+	if err == ErrTimeout {
+		s.Sat--
+		s.Unknown++
+		return Unknown, nil, nil
+	}
 	if err != nil {
 		return Unknown, nil, err
 	}
